@@ -135,7 +135,7 @@ def generate(seed, prop):
         trims = [rng.randint(10, max(11, r["n"] - 2)) if (style_k == "list" and r["fmt"].startswith("mseed") and rng.random() < 0.6) else None
                  for r in recs]
         ops = [{"op": "read_many", "kwargs_style": style_k, "dfn_style": style_d, "trims": trims,
-                "unwrap_single": rng.random() < 0.5}]
+                "unwrap_single": rng.random() < 0.5, "bare": rng.random() < 0.3}]
     faults = []
     if faulty:
         for _ in range(rng.choice([1, 1, 1, 2])):
@@ -627,6 +627,8 @@ def run_op(ctx, st, op, H):
     if op["op"] == "read_many":
         entries = st.stored
         fnames = [fname_arg(e, unwrap=op["unwrap_single"]) for e in entries]
+        if op.get("bare") and len(entries) == 1 and len(entries[0]["paths"]) == 1:
+            fnames = fname_arg(entries[0], unwrap=True)        # a single file name instead of a list (accepted with a warning)
         ks, ds = op["kwargs_style"], op["dfn_style"]
         from obspy import UTCDateTime
         t0 = UTCDateTime(2020, 1, 1)
